@@ -33,6 +33,10 @@ CLAIMED = {
             "Seeded exploration, metamorphic oracle: the same generated request sequence is delivered on a baseline connection and on 1..3 further connections under tape-chosen TCP deliveries (cuts anywhere in head and body, coalescing, pipelining, delays from 0 to seconds, short reads, different task schedules); every delivery must produce the baseline's responses and terminate. One listed known finding (pipelining, KF-C06-2) is guarded in the main pass and re-entered deliberately in a hazard pass where any unlisted signature is still a violation.",
             "Trusts the facade tokio's read semantics (arbitrary 1..n byte returns are legal for TCP), the response parser and the C02 reference model for the baseline.",
             "metamorphic comparison of deliveries of one byte stream under injected segmentation/short-read/delay faults"),
+    "C12": ("DESIGN.md 5.C12",
+            "Seeded exploration with the wall clock as a fault dimension: a JWT-guarded application (HS256/384/512, generated secrets, fang at root / on a mount / local) receives 2..10 requests on a keep-alive connection (sometimes reconnecting), each with a generated token (issued by the same configuration, model-signed with arbitrary payloads/headers, every kind of mutation and forgery of the statement) while the simulated wall clock (hook K1) is set to an instant chosen around the token's exp/nbf/iat, jumping forwards and backwards between requests; an independent token model (own base64url and HMAC construction) decides admit/refuse at that instant and the echoed payload must equal the signed one.",
+            "Trusts the sha2 crate's hash functions (HMAC construction and base64url are re-implemented); non-numeric time claims are open; `bearer` in another case is checked one way only.",
+            "reference token model evaluated at the simulated clock; clock jump/skew injection"),
     "C17": ("DESIGN.md 5.C17",
             "Seeded exploration over producer schedules: 1..3 concurrent SSE connections, each driven by a generated producer script (sends of arbitrary Unicode text incl. LF/CR/CRLF/field look-alikes/NUL/BOM, bursts before a yield, self-waking yields, timer sleeps, completion with empty or non-empty queue) through DataStream::new (QueueStream), DataStream::from(custom Stream) and Response::with_stream, read over sockets with tape-chosen windows, read sizes and pauses (back-pressure between chunks) and short writes; an independent chunked decoder and WHATWG event-stream parser must yield exactly the messages in order with no foreign field, the stream must terminate, and a follow-up request on the same connection must be answered.",
             "Trusts the independent chunked decoder and event-stream parser (DESIGN.md A.7) and the facade's timer/yield semantics.",
